@@ -99,6 +99,23 @@ def make_case(rng, i, tier):
         perm = list(range(k))    # ... and sometimes merged exactly in chain order
     prefixes = [[op for op in random_prefix(rng, n=(1, 2)) if op["op"] != "merge_empty"] if (i % 4 == 3 and rng.random() < 0.6) else [] for _ in seqs]
     case = {"seqs": seqs, "perm": perm, "into_empty": rng.random() < 0.5, "prefixes": prefixes}
+    if i % 19 == 7 and len(seqs) >= 2:
+        # two different keys that a flattened (channel, pitch) encoding could confuse: (c, p) and (c + 1, p - K) for the strides K a
+        # table of pitches might use (128, 127, 109 = piano top + 1, 108, 100, 88 keys), sounding at the same time in two operands
+        import random
+        r6 = random.Random(f"c15-stride:{i}")
+        K = [109, 128, 127, 108, 100, 88, 110, 16][(i // 19) % 8]
+        c = r6.choice([0, 1, 2, 8, 14])
+        p = r6.randrange(max(K, 0), 128) if K <= 127 else None
+        t0, ln = r6.randrange(0, 30), r6.randint(6, 30)
+        if p is not None:
+            seqs[0]["notes"] = [n for n in seqs[0]["notes"] if (n[0], n[1]) != (c, p)] + [[c, p, t0, ln, 88]]
+            seqs[-1]["notes"] = [n for n in seqs[-1]["notes"] if (n[0], n[1]) != (c + 1, p - K)] + [[c + 1, p - K, t0 + r6.randint(1, ln - 1), ln, 89]]
+        else:
+            # stride 128 cannot collide inside 0..127; use the neighbouring-channel, same-pitch pair instead
+            seqs[0]["notes"] = [n for n in seqs[0]["notes"] if (n[0], n[1]) != (c, 127)] + [[c, 127, t0, ln, 88]]
+            seqs[-1]["notes"] = [n for n in seqs[-1]["notes"] if (n[0], n[1]) != (c + 1, 0)] + [[c + 1, 0, t0 + 2, ln, 89]]
+        case["stride"] = K
     if i % 7 == 2:
         case["argument_form"] = ["tuple", "iter", "generator"][(i // 7) % 3]
     return case
